@@ -28,6 +28,14 @@ Theorem C04_history_refines_std : forall c ck ops l', cap_ok c -> Forall op_wf o
 Proof. exact history_refines. Qed.
 Print Assumptions C04_history_refines_std.
 
+(* ... and after EVERY step on the way: every prefix ops1 of such a history is such a history *)
+Theorem C04_history_refines_std_every_step : forall c ck ops1 ops2 l', cap_ok c -> Forall op_wf (ops1 ++ ops2) ->
+  Forall (arg_ok c) (ops1 ++ ops2) -> spec_run_fits c [] (map sop_of (ops1 ++ ops2)) = Some l' ->
+  exists l1 s1, spec_run_fits c [] (map sop_of ops1) = Some l1 /\ run (default_str c ck) ops1 = Ok s1 /\
+                contents s1 = l1 /\ get_size s1 = slen l1 /\ terminator s1 = 0.
+Proof. exact history_refines_every_step. Qed.
+Print Assumptions C04_history_refines_std_every_step.
+
 (* one operation from ANY state satisfying the invariant *)
 Theorem C04_step_refines_std : forall s o l', inv s -> op_wf o -> arg_ok (cap s) o ->
   spec_step (contents s) (sop_of o) = Some l' -> slen l' <= cap s ->
@@ -88,7 +96,7 @@ Proof. exact returned_count_refines. Qed.
 Print Assumptions C04_returned_count.
 
 (* replace — whose in-place overwrite is the recorded known finding below — still keeps the invariant, in all
-   four index-based overloads (as the code is after fix commits 5f6ea98 / 30e894f / cb22248; before them a
+   four index-based and the iterator-based overloads (as the code is after fix commits 5f6ea98 / 30e894f / cb22248; before them a
    count of npos wrapped the range computation and the terminator was overwritten) *)
 Theorem C04_replace_keeps_invariant :
   (forall s pos count src s', inv s -> 0 <= pos -> replace_m s pos count src = Ok s' ->
@@ -98,8 +106,14 @@ Theorem C04_replace_keeps_invariant :
   (forall s pos count a s', inv s -> 0 <= pos -> replace_cstr_m s pos count a = Ok s' ->
      inv s' /\ cap s' = cap s /\ ckind s' = ckind s) /\
   (forall s pos count src pos2 count2 s', inv s -> 0 <= pos -> replace5_m s pos count src pos2 count2 = Ok s' ->
+     inv s' /\ cap s' = cap s /\ ckind s' = ckind s) /\
+  ((* iterator-based: replace(first, last, str | s, count2 | s) *)
+   forall s first last src s', inv s -> replace_it_m s first last src = Ok s' ->
+     inv s' /\ cap s' = cap s /\ ckind s' = ckind s) /\
+  ((* replace(first, last, count2, ch) *)
+   forall s first last count2 ch s', inv s -> 0 <= count2 -> replace_it_fill_m s first last count2 ch = Ok s' ->
      inv s' /\ cap s' = cap s /\ ckind s' = ckind s).
-Proof. exact (conj replace_keeps (conj replace_ptr_keeps (conj replace_cstr_keeps replace5_keeps))). Qed.
+Proof. exact (conj replace_keeps (conj replace_ptr_keeps (conj replace_cstr_keeps (conj replace5_keeps (conj replace_it_keeps replace_it_fill_keeps))))). Qed.
 Print Assumptions C04_replace_keeps_invariant.
 
 (** * Outcome of EVERY call (also outside the domain of the refinement theorem): a mutator either returns a state
